@@ -377,7 +377,7 @@ def finCode (ver rc : Nat) : Nat := if rc > 2 && ver < 5 then 0x80 else rc
     filter alone (the per-filter work changes neither the ACL nor the capabilities nor the client's in-flight
     records) -/
 def subCode (s : Server) (i id : Nat) (sub : Sub) : Nat :=
-  if (flGet (getObj s i) id).isSome then 0x91
+  if (flGet (getObj s i) id).isSome then finCode (getObj s i).ver 0x91
   else if !isValidFilter sub.filter false then finCode (getObj s i).ver 0x8F
   else if sub.noLocal && isSharedFilter sub.filter then finCode (getObj s i).ver 0x82
   else if !aclOk s (getObj s i).id sub.filter false then
@@ -408,9 +408,10 @@ theorem processSubscribe_out {s : Server} {conn i : Nat} (L : Live s conn i) (id
     · rename_i hu
       have hu' : (flGet (getObj s i) id).isSome = true := hu
       refine ⟨h, ?_⟩
-      show rcs ++ [0x91] = rcs ++ [subCode s i id sub]
+      show rcs ++ [fin 0x91] = rcs ++ [subCode s i id sub]
       unfold subCode
       rw [if_pos hu']
+      rfl
     · rename_i hu
       have hu' : ¬ (flGet (getObj s i) id).isSome = true := hu
       split
